@@ -65,6 +65,12 @@ fn prog_cfg(which: Which, variant: u64) -> ProgCfg {
         c.threads = (2, 2);
         c.ops = (2, 4);
     }
+    if variant % 11 == 10 {
+        // larger programs: 4 threads x up to 6 operations
+        c.threads = (4, 4);
+        c.ops = (3, 6);
+        c.preload = (2, 5);
+    }
     c
 }
 
@@ -79,6 +85,11 @@ pub fn strategy_for(rng: &mut Rng, k: u64) -> Strategy {
 }
 
 fn parse_strategy(s: &str) -> Strategy {
+    if let Some(rest) = s.strip_prefix("script(") {
+        return Strategy::Script {
+            choices: rest.bytes().filter(|b| b.is_ascii_digit()).map(|b| b - b'0').collect(),
+        };
+    }
     let nums: Vec<u32> = s
         .split(|c: char| !c.is_ascii_digit())
         .filter(|x| !x.is_empty())
@@ -104,6 +115,7 @@ struct Cov {
     schedules: HashSet<u64>,
     programs: HashSet<u64>,
     sites: HashSet<(Op, u32)>,
+    site_names: HashSet<String>,
     pairs: HashSet<(Op, u32, Op, u32)>,
     steps: u64,
     inspections: u64,
@@ -193,6 +205,11 @@ fn run_one(
         cov.steps += e.steps;
         cov.schedules.insert(fnv_mix(e.trace_hash, prog.hash()));
         cov.sites.extend(e.sites.iter().copied());
+        for ((op, line), file) in &e.site_files {
+            if *line > 0 {
+                cov.site_names.insert(format!("{}:{} {:?}", file.rsplit('/').next().unwrap_or(file), line, op));
+            }
+        }
         cov.pairs.extend(e.switch_pairs.iter().copied());
     }
     cov.inspections += inspections;
@@ -222,6 +239,7 @@ pub fn level_into(which: Which, rep: &mut Report) {
             schedules: HashSet::new(),
             programs: HashSet::new(),
             sites: HashSet::new(),
+            site_names: HashSet::new(),
             pairs: HashSet::new(),
             steps: 0,
             inspections: 0,
@@ -355,6 +373,7 @@ pub fn level_into(which: Which, rep: &mut Report) {
         schedules: HashSet::new(),
         programs: HashSet::new(),
         sites: HashSet::new(),
+        site_names: HashSet::new(),
         pairs: HashSet::new(),
         steps: 0,
         inspections: 0,
@@ -363,6 +382,7 @@ pub fn level_into(which: Which, rep: &mut Report) {
         all.schedules.extend(c.schedules);
         all.programs.extend(c.programs);
         all.sites.extend(c.sites);
+        all.site_names.extend(c.site_names);
         all.pairs.extend(c.pairs);
         all.steps += c.steps;
         all.inspections += c.inspections;
@@ -371,6 +391,9 @@ pub fn level_into(which: Which, rep: &mut Report) {
     rep.set("distinct_schedules", json!(all.schedules.len()));
     rep.set("distinct_programs", json!(all.programs.len()));
     rep.set("hook_sites_reached", json!(all.sites.len()));
+    let mut names: Vec<String> = all.site_names.into_iter().collect();
+    names.sort();
+    rep.set("hook_sites", json!(names));
     rep.set("context_switch_pairs", json!(all.pairs.len()));
     if which == Which::C12 {
         rep.set("stop_the_world_inspections", json!(all.inspections));
@@ -378,8 +401,12 @@ pub fn level_into(which: Which, rep: &mut Report) {
     // E2: the same programs free-running on real cores with delay injection
     let n_e2 = budget(tier, 1_500, 150_000);
     e2_pass(which, rep, n_e2);
+    // every schedule with a bounded number of preemptions of the tiny programs
+    bounded_sweep(which, rep, tier.pick(2, 4), 10_000, tier.pick(5_000, 400_000));
     // the long-running exchange workload (every tier; sized by the tier)
-    exchange(rep, which, budget(tier, 6_000, 60_000));
+    // (the acknowledgement checker is quadratic in the history length: C13 keeps the short run)
+    let ex_ops = if which == Which::C13 { budget(tier, 6_000, 10_000) } else { budget(tier, 6_000, 60_000) };
+    exchange(rep, which, ex_ops);
     if tier == Tier::Thorough && which == Which::C03 && std::env::var("PLV_NO_MIRI").is_err() {
         crate::miri::sweep(rep, "level", seed, 4, budget(tier, 0, 96), "0.05");
     }
@@ -452,11 +479,15 @@ fn e2_pass(which: Which, rep: &mut Report, n: u64) {
                     }
                 }
                 Which::C13 => {
-                    // without the hook event log a not-found cannot be attributed: only the
-                    // "successful cancel is final" half is judged here
+                    // without the hook event log the attribution is conservative: a not-found is
+                    // a violation only if no call that could hold the order overlaps it at all
                     let mut st = AckStats::default();
-                    let (v, _) = lin::ack_truthful(&ex, &mut st);
-                    findings.extend(v.into_iter().filter(|s| !s.contains("answered not-found")));
+                    let (v, k4) = lin::ack_truthful(&ex, &mut st);
+                    findings.extend(v);
+                    if k4 > 0 {
+                        part.known(lin::SIG_K4, k4);
+                    }
+                    part.add("e2_not_found_replies", st.not_found);
                 }
                 Which::C15 => findings.extend(lin::stats_vs_events(&ex)),
             }
@@ -505,6 +536,7 @@ pub fn replay_e1(r: &Value) -> i32 {
         schedules: HashSet::new(),
         programs: HashSet::new(),
         sites: HashSet::new(),
+        site_names: HashSet::new(),
         pairs: HashSet::new(),
         steps: 0,
         inspections: 0,
@@ -1343,7 +1375,7 @@ pub fn exchange(rep: &mut Report, which: Which, ops_per_thread: u64) {
                                 if r.is_empty() {
                                     None
                                 } else {
-                                    Some(r[r.len() - 1 - rng.usize_below(r.len().min(24))])
+                                    Some(r[r.len() - 1 - rng.usize_below(r.len().min(160))])
                                 }
                             };
                             match id {
@@ -1486,8 +1518,12 @@ pub fn exchange(rep: &mut Report, which: Which, ops_per_thread: u64) {
         }
         Which::C13 => {
             let mut st = AckStats::default();
-            let (v, _) = lin::ack_truthful(&ex, &mut st);
-            findings.extend(v.into_iter().filter(|s| !s.contains("answered not-found")));
+            let (v, k4) = lin::ack_truthful(&ex, &mut st);
+            findings.extend(v);
+            if k4 > 0 {
+                rep.known(lin::SIG_K4, k4);
+            }
+            rep.add("exchange_not_found_replies", st.not_found);
         }
     }
     let (inc, findings): (Vec<String>, Vec<String>) = findings.into_iter().partition(|f| f.starts_with(lin::INCONCLUSIVE));
@@ -1539,4 +1575,215 @@ fn conc_raise(b: &Bounds, op: &COp) {
 
 fn conc_apply(level: &PriceLevel, idgen: &UuidGenerator, op: &COp) -> CRes {
     conc::apply_pub(level, idgen, op)
+}
+
+// ---------------------------------------------------------------------------------------------
+// Bounded-preemption enumeration: ALL schedules with at most `bound` preemptions of small
+// programs (stateless exploration: every schedule is a real execution from a fresh level).
+// ---------------------------------------------------------------------------------------------
+
+fn tiny_programs() -> Vec<Program> {
+    use pricelevel::{Side, TimeInForce};
+    let price = 10u64;
+    let p = |thr: u64, amt: Option<u64>, auto: bool| model::Params {
+        thr,
+        amt,
+        auto,
+        ..model::Params::default()
+    };
+    let o = |k: model::Kind, n: u64, v: u64, h: u64, pr: &model::Params| model::mk(k, model::oid(n), price, v, h, Side::Sell, 100 + n, TimeInForce::Gtc, pr);
+    let d = model::Params::default();
+    let preloads: Vec<Vec<model::Order>> = vec![
+        vec![o(model::Kind::Standard, 1, 5, 0, &d)],
+        vec![o(model::Kind::Iceberg, 1, 3, 4, &d)],
+        vec![o(model::Kind::Reserve, 1, 3, 4, &p(2, Some(2), true))],
+        vec![o(model::Kind::Standard, 1, 4, 0, &d), o(model::Kind::Iceberg, 2, 2, 3, &d)],
+        vec![o(model::Kind::Iceberg, 1, 0, 3, &d), o(model::Kind::Standard, 2, 4, 0, &d)],
+    ];
+    let x = model::oid(1);
+    let ops: Vec<COp> = vec![
+        COp::Match { qty: 2, taker: model::oid(9001) },
+        COp::Match { qty: 9, taker: model::oid(9002) },
+        COp::Cancel(x),
+        COp::Amend { id: x, qty: 7 },
+        COp::Amend { id: x, qty: 1 },
+        COp::Add(o(model::Kind::Standard, 50, 3, 0, &d)),
+        COp::Read(1),
+    ];
+    let mut out = Vec::new();
+    for pre in &preloads {
+        for (i, a) in ops.iter().enumerate() {
+            for (j, b) in ops.iter().enumerate() {
+                if j < i {
+                    continue; // unordered pairs: the two threads are symmetric
+                }
+                if matches!(a, COp::Read(_)) && matches!(b, COp::Read(_)) {
+                    continue;
+                }
+                let mut b2 = b.clone();
+                if let (COp::Match { .. }, COp::Match { qty, .. }) = (a, b) {
+                    // two matchers need distinct taker ids
+                    b2 = COp::Match { qty: *qty, taker: model::oid(9100) };
+                }
+                if let (COp::Add(_), COp::Add(_)) = (a, b) {
+                    b2 = COp::Add(o(model::Kind::Standard, 51, 2, 0, &d));
+                }
+                out.push(Program {
+                    price,
+                    preload: pre.clone(),
+                    threads: vec![vec![a.clone()], vec![b2]],
+                });
+            }
+        }
+    }
+    // a few three-thread programs: matcher + canceller + amender on the same order
+    for pre in preloads.iter().take(3) {
+        out.push(Program {
+            price,
+            preload: pre.clone(),
+            threads: vec![
+                vec![COp::Match { qty: 2, taker: model::oid(9001) }],
+                vec![COp::Cancel(x)],
+                vec![COp::Amend { id: x, qty: 6 }],
+            ],
+        });
+    }
+    out
+}
+
+/// Explores every schedule of `prog` with at most `bound` preemptions.
+fn explore_bounded(
+    which: Which,
+    prog: &Program,
+    bound: u32,
+    cov: &mut Cov,
+    part: &mut Report,
+    lst: &mut LinStats,
+    ast: &mut AckStats,
+    pi: u64,
+    max_runs: u64,
+) -> (u64, bool) {
+    let mut stack: Vec<(Vec<u8>, u32)> = vec![(Vec::new(), 0)];
+    let mut runs = 0u64;
+    let mut complete = true;
+    while let Some((script, used)) = stack.pop() {
+        if runs >= max_runs {
+            complete = false;
+            break;
+        }
+        let strat = Strategy::Script { choices: script.clone() };
+        let (ex, rv) = run_one(which, prog, strat.clone(), 0, cov);
+        runs += 1;
+        part.evaluations += 1;
+        let e = match &ex.exec {
+            Some(e) => e,
+            None => continue,
+        };
+        if e.verdict != Verdict::Completed {
+            part.inconclusive(format!("[tiny program {} {}] {:?}", pi, strat.describe(), e.verdict));
+            continue;
+        }
+        if ex.conflicting() {
+            part.distinct.insert(fnv_mix(e.trace_hash, prog.hash()));
+        }
+        // children: deviate at every position at or after the end of this script
+        let n = e.trace.len();
+        for i in script.len()..n {
+            let chosen = e.trace[i].0;
+            let mask = e.runnable[i];
+            let prev = if i == 0 { None } else { Some(e.trace[i - 1].0) };
+            for a in 0..8u8 {
+                if mask & (1 << a) == 0 || a == chosen {
+                    continue;
+                }
+                // switching away from a thread that could have continued is a preemption
+                let preempt = match prev {
+                    Some(pv) => mask & (1 << pv) != 0 && a != pv,
+                    None => false,
+                };
+                let cost = used + if preempt { 1 } else { 0 };
+                // preemptions inside the default continuation of this run (positions script.len()..i) are none:
+                // the default policy is non-preemptive
+                if cost > bound {
+                    continue;
+                }
+                let mut s2: Vec<u8> = e.trace[..i].iter().map(|t| t.0).collect();
+                s2.push(a);
+                stack.push((s2, cost));
+            }
+        }
+        let findings = judge_execution(which, &ex, &rv, part, lst, ast);
+        let (inc, findings): (Vec<String>, Vec<String>) = findings.into_iter().partition(|f| f.starts_with(lin::INCONCLUSIVE));
+        for f in inc {
+            part.inconclusive(format!("[tiny program {} {}] {}", pi, strat.describe(), &f[lin::INCONCLUSIVE.len()..]));
+        }
+        for f in findings.iter().take(1) {
+            part.violation(
+                format!("[tiny program {} {}] {}", pi, strat.describe(), f),
+                json!({"engine": "e1-bounded", "property": which.id(), "tiny_program_index": pi, "strategy": strat.describe(),
+                       "finding": f, "execution": ex.describe(),
+                       "schedule": e.trace.iter().map(|(t, op, line)| format!("T{}:{:?}@{}", t, op, line)).collect::<Vec<_>>()}),
+            );
+        }
+    }
+    (runs, complete)
+}
+
+pub fn bounded_sweep(which: Which, rep: &mut Report, bound: u32, max_programs: usize, max_runs_per_program: u64) {
+    let progs = tiny_programs();
+    let seed = rep.seed;
+    let tier = rep.tier;
+    let prop = which.id();
+    let nw = ncpu();
+    let n = progs.len().min(max_programs);
+    // a seeded rotation decides which programs a capped run takes
+    let offset = (seed as usize) % progs.len();
+    let done: Mutex<(u64, u64, u64)> = Mutex::new((0, 0, 0));
+    parallel(nw, rep, |w| {
+        let mut part = Report::new(prop, tier, seed, "exploration");
+        let mut cov = Cov {
+            schedules: HashSet::new(),
+            programs: HashSet::new(),
+            sites: HashSet::new(),
+            site_names: HashSet::new(),
+            pairs: HashSet::new(),
+            steps: 0,
+            inspections: 0,
+        };
+        let mut lst = LinStats {
+            ids_searched: 0,
+            nodes: 0,
+            capped: 0,
+        };
+        let mut ast = AckStats::default();
+        let mut k = w;
+        while k < n {
+            let pi = (k + offset) % progs.len();
+            let (runs, complete) = explore_bounded(which, &progs[pi], bound, &mut cov, &mut part, &mut lst, &mut ast, pi as u64, max_runs_per_program);
+            let mut d = done.lock().unwrap();
+            d.0 += 1;
+            d.1 += runs;
+            if complete {
+                d.2 += 1;
+            }
+            k += nw;
+        }
+        part.add("bounded_sweep_distinct_schedules", cov.schedules.len() as u64);
+        part
+    });
+    let d = done.lock().unwrap();
+    rep.set("bounded_sweep_preemption_bound", json!(bound));
+    rep.set("bounded_sweep_programs", json!(d.0));
+    rep.set("bounded_sweep_programs_fully_enumerated", json!(d.2));
+    rep.set("bounded_sweep_executions", json!(d.1));
+    rep.set("bounded_sweep_program_pool", json!(progs.len()));
+    rep.set(
+        "exhaustive_scope",
+        json!(format!(
+            "for {} of the {} tiny programs (2 threads x 1 operation from {{match 2, match 9, cancel X, amend X->7, amend X->1, add, snapshot}} on 5 preloads, plus 3 three-thread programs) EVERY schedule with at most {} preemptions was executed; everything else is sampled",
+            d.2,
+            progs.len(),
+            bound
+        )),
+    );
 }
